@@ -53,6 +53,18 @@ CHECKS = {
         text="The same generated source is compiled with and without optimisation by the real compiler; both blueprints are executed for the same valuations / held-step histories and every named output and entity condition must be identical, the optimised build also matching the reference semantics. Strata target the optimiser (CSE key variants, folded constants in every consumer kind, fan-out).",
         design_ref="DESIGN.md 3 (C10)",
     ),
+    "C11": dict(
+        category="exploration",
+        technique="runtime monitoring: reference-value oracle on the executed blueprint + const_to_input differential twin + harness-attached monitor on the compiler's folding functions",
+        text="Generated constant expressions over the int32 boundary set are placed in every folding position (literal value, int variable, operand, condition, output constant, function argument, loop iterator arithmetic, constant behind a projection, place coordinate); the executed blueprint must show the int32 reference value, the constant-replaced-by-input twin must agree, and a monitor records every ConstantFolder / constant-propagation fold call and compares it with the int32 model.",
+        design_ref="DESIGN.md 3 (C11)",
+    ),
+    "C16": dict(
+        category="exploration",
+        technique="runtime monitoring: differential execution of the loop program and its manually unrolled twin, reference oracle, and a monitor on ForStmt.get_iteration_values",
+        text="Loop programs over a complete box of (start, stop, step) triples plus random bodies (iterator in coordinates/arithmetic/literals, local names, memories, calls, nesting <= 3, list iterators, bounds through int variables) are compiled next to their unrolled twin; both blueprints are executed and must agree on outputs, entity conditions and the user-entity multiset; each expansion is checked against the documented sequence by a harness-attached monitor.",
+        design_ref="DESIGN.md 3 (C16)",
+    ),
 }
 
 PENDING = {}
